@@ -88,6 +88,13 @@ func runEngineB(p *plan, tier string, base uint64, workers int, scale float64, r
 					res := engb.RunOne(st.Workload, sim.NewTape(seed), root, bin, idx < 2, nil)
 					res.Idx = idx
 					mu.Lock()
+					if d := os.Getenv("VERIF_DUMP"); d != "" {
+						// development aid: one line per scenario, for run-to-run comparison
+						if f, err := os.OpenFile(d, os.O_APPEND|os.O_CREATE|os.O_WRONLY, 0644); err == nil {
+							fmt.Fprintf(f, "%s %d %d %x %d %s\n", st.Workload, idx, seed, res.TraceHash, res.Procs, res.Class)
+							f.Close()
+						}
+					}
 					sum.Runs++
 					perStage[st.Workload]++
 					sum.Procs += res.Procs
